@@ -1,5 +1,7 @@
 import Driver.BusUtil
 import GbVerif.Model.Fetch
+import GbVerif.Model.Cpu
+import GbVerif.Model.Sys
 namespace Driver
 open GbVerif
 
@@ -13,7 +15,7 @@ def fetchAddrs : Array Nat := Id.run do
   while a < 0xe000 do
     v := v.push a; a := a + 3
   for x in [0xff80:0xffff] do v := v.push x
-  return v ++ #[0x3fff, 0x4000, 0x7fff, 0xcfff, 0xd000, 0xdfff]
+  return v ++ #[0x3ffd, 0x3ffe, 0x3fff, 0x4000, 0x7ffd, 0x7ffe, 0x7fff, 0xcffd, 0xcffe, 0xcfff, 0xd000, 0xdffe, 0xdfff]
 
 def fetchEchoAddrs : Array Nat := Id.run do
   let mut v : Array Nat := #[]
@@ -22,10 +24,14 @@ def fetchEchoAddrs : Array Nat := Id.run do
     v := v.push a; a := a + 5
   return v ++ #[0xefff, 0xf000, 0xfdff, 0xfe00, 0xfe9f]
 
+/-- the (up to three) bytes `get_executable_memory_slice(a)` hands to the decoder, preceded by their number -/
 def fetchDigest (s : Bus.State) (addrs : Array Nat) : UInt64 := Id.run do
   let mut h := fnv0
   for a in addrs do
-    h := fnv h (match Bus.fetchByte s a with | .ok v => v | .error _ => 0x1ff)
+    let n := match Cpu.sliceLen a with | .ok n => min n 3 | .error _ => 0
+    h := fnv h n
+    for k in [0:n] do
+      h := fnv h (match Cpu.sliceByte s a k with | .ok v => v | .error _ => 0x1ff)
   return h
 
 /-- C10: per-region digests of the whole 64 KiB read image after a write history -/
@@ -36,11 +42,20 @@ def checkC10 (l : Line) : Verdict := Id.run do
   if ds.length != 12 || io.size != 128 then return .bad "malformed outputs"
   -- spec
   let mut sm := mkSpec l
-  for (a, v) in hist do sm := BusSpec.write sm a v
+  -- the passage of time (pseudo-address 65536) does not exist in the memory-map spec: stored bytes stay stored
+  for (a, v) in hist do if a < 65536 then sm := BusSpec.write sm a v
   let names := ["rom0", "romx", "vram", "cram", "wram0", "wramx", "echo", "oam", "unused", "io", "hram", "ie"]
   let mut k := 0
+  -- an OAM DMA that is given time copies into OAM: that region is then outside the memory-map spec (the model below covers it)
+  let dmaRuns := Id.run do
+    let mut started := false
+    let mut runs := false
+    for (a, _) in hist do
+      if a == 0xff46 then started := true
+      if a == 65536 && started then runs := true
+    return runs
   for (lo, hi) in windows do
-    if k != 9 then
+    if k != 9 && !(k == 7 && dmaRuns) then
       let d := digestRange (BusSpec.read sm) lo hi
       if d.toNat != ds.getD k 0 then
         return .specDiff s!"region {names.getD k ""} [{lo},{hi}) differs from the memory-map spec after the history"
@@ -61,6 +76,11 @@ def checkC10 (l : Line) : Verdict := Id.run do
   -- model
   let mut s := mkBus l
   for (a, v) in hist do
+    if a == 65536 then
+      match Sys.dev s (64 * v) with
+      | .ok s' => s := s'
+      | .error _ => return .modelDiff s!"model panics when {64 * v} clocks pass but the implementation survived"
+    else
     match Bus.write s a v with
     | .ok s' => s := s'
     | .error _ => return .modelDiff s!"model panics on write {a}:{v} but the implementation survived"
